@@ -4,7 +4,7 @@ property's check, restore /repo, and record whether the check reported a violati
 usage: tools/runseeded.py [prop[/name] ...] [--tier quick|thorough] [--also C01,C02]"""
 import json, os, subprocess, sys, time, glob
 V = os.path.dirname(os.path.dirname(os.path.abspath(__file__)))
-REPO = "/repo"
+REPO = os.environ.get("VERIF_REPO", "/repo")
 
 def sh(cmd, **kw):
     p = subprocess.run(cmd, stdout=subprocess.PIPE, stderr=subprocess.STDOUT, text=True, **kw)
